@@ -19,6 +19,7 @@
 #include <string.h>
 #include <vnacal.h>
 #include <vnacal_internal.h>
+#include <vnacal_new_internal.h>
 #include "vf.h"
 #include "calsim.h"
 
@@ -66,6 +67,7 @@ static vf_errlog elog;
 static int g_net = 2;	/* error-network family member used by scenarios */
 static double g_slope_nf, g_slope_tr;	/* frequency dependence of sigma */
 static int g_predeclare;	/* run_cal: a different model is declared first */
+static int g_curve;	/* sigma is a curved function of frequency */
 
 static int make_scenario(cs_scenario *sc, vnacal_type_t type, int rows,
 	int cols, int recipe, int nf)
@@ -218,6 +220,16 @@ static void run_cal(cs_scenario *sc, bool model, int gk, double snf,
 	    fv[0] = f0; fv[1] = f0 + 0.37 * (f1 - f0); fv[2] = f1;
 	    fp = fv;
 	    break;
+	case 6:
+	    /* the calibration frequencies and the midpoints between them */
+	    n = 2 * v->nf - 1;
+	    for (int i = 0; i < v->nf; ++i) {
+		fv[2 * i] = v->f[i];
+		if (i + 1 < v->nf)
+		    fv[2 * i + 1] = 0.5 * (v->f[i] + v->f[i + 1]);
+	    }
+	    fp = fv;
+	    break;
 	default:
 	    n = 5;
 	    for (int i = 0; i < 5; ++i)
@@ -233,6 +245,10 @@ static void run_cal(cs_scenario *sc, bool model, int gk, double snf,
 	    double x = (n > 1 && f1 > f0) ? (f - f0) / (f1 - f0) : 0.0;
 	    nfv[i] = snf * (1.0 + g_slope_nf * x);
 	    trv[i] = str * (1.0 + g_slope_tr * x);
+	    if (g_curve) {
+		nfv[i] *= 1.0 + 0.5 * sin(7.0 * x);
+		trv[i] *= 1.0 - 0.4 * sin(5.0 * x + 1.0);
+	    }
 	    /* per-point factors of the scenario (grid kind 1 only: the
 	       declaration is per calibration frequency) */
 	    if (gk == 1 && sc->sigma_fscale[i] != 0.0) {
@@ -765,8 +781,8 @@ static void run_ens(int tier, int t, vf_result *r)
  * floor to the tracking part changes with frequency, otherwise the weights
  * of one frequency would only change by a common factor.
  */
-#define NGEQ_KIND 4
-static const int geq_kind[NGEQ_KIND] = { 2, 3, 4, 5 };
+#define NGEQ_KIND 5
+static const int geq_kind[NGEQ_KIND] = { 2, 3, 4, 5, 6 };
 static long ngeq(void) { return 8 * 2 * NGEQ_KIND; }
 
 static void run_geq(long idx, vf_result *r)
@@ -787,7 +803,8 @@ static void run_geq(long idx, vf_result *r)
 	    "falling 2x over the band, declared on the calibration grid and "
 	    "on noise grid kind %d (2: two points outside, 3: five points, "
 	    "4: same length and span with other interior points, 5: three "
-	    "points), noisy data", tname, rows, cols, gk);
+	    "points, 6: calibration frequencies and their midpoints, curved "
+	    "dependence), noisy data", tname, rows, cols, gk);
     unsigned long mark = vf_exec_begin();
     {
 	int found = 0;
@@ -808,9 +825,13 @@ static void run_geq(long idx, vf_result *r)
     run_cal(&sc, false, 0, 0, 0, false, 0, &plain, r);
     g_slope_nf = 2.0;
     g_slope_tr = -0.5;
+    /* kind 6: the grid contains the calibration frequencies, so any
+       dependence on frequency is the same model: a curved one is used */
+    g_curve = gk == 6;
     run_cal(&sc, true, 1, 1e-3, 3e-2, false, 1e-12, &direct, r);
     run_cal(&sc, true, gk, 1e-3, 3e-2, false, 1e-12, &grid, r);
     g_slope_nf = g_slope_tr = 0.0;
+    g_curve = 0;
     if (plain.rc != 0 || !plain.applied || direct.rc != 0 ||
 	    !direct.applied) {
 	snprintf(sig, sizeof(sig), "geq-reference-failed:%s", tname);
@@ -826,13 +847,70 @@ static void run_geq(long idx, vf_result *r)
 		grid.msg);
 	goto done;
     }
+    if (gk == 6) {
+	/*
+	 * "interpolated through the given points": the values the library
+	 * holds for the calibration frequencies after the declaration on
+	 * the grid that contains them are the declared ones (white box: a
+	 * common factor on all weights of a frequency does not move the
+	 * solution, so the comparison above cannot see this)
+	 */
+	const cs_vna *v = &sc.vna;
+	/* three grids: the calibration frequencies alone, with one more
+	   point, and with every midpoint */
+	for (int gv = 0; gv < 3 && r->status == VF_OK; ++gv) {
+	    vnacal_t *vcp = vnacal_create((vnaerr_error_fn_t *)vf_errfn,
+		    &elog);
+	    vnacal_new_t *vnp = vcp ? vnacal_new_alloc(vcp, v->type, v->rows,
+		    v->cols, v->nf) : NULL;
+	    double fv[8], nfv[8], trv[8];
+	    int at[CS_MAXF], n = 0;
+	    for (int i = 0; i < v->nf; ++i) {
+		at[i] = n;
+		fv[n++] = v->f[i];
+		if (i + 1 < v->nf && (gv == 2 || (gv == 1 && i == 1)))
+		    fv[n++] = 0.5 * (v->f[i] + v->f[i + 1]);
+	    }
+	    for (int i = 0; i < n; ++i) {
+		double x = (fv[i] - v->f[0]) / (v->f[v->nf - 1] - v->f[0]);
+		nfv[i] = 1e-3 * (1.0 + 2.0 * x) * (1.0 + 0.5 * sin(7.0 * x));
+		trv[i] = 3e-2 * (1.0 - 0.5 * x) *
+		    (1.0 - 0.4 * sin(5.0 * x + 1.0));
+	    }
+	    if (vnp != NULL &&
+		    vnacal_new_set_frequency_vector(vnp, v->f) == 0 &&
+		    vnacal_new_set_m_error(vnp, fv, n, nfv, trv) == 0) {
+		for (int k = 0; k < v->nf; ++k) {
+		    double gn = vnp->vn_m_error_vector[k].vnme_sigma_nf;
+		    double gt = vnp->vn_m_error_vector[k].vnme_sigma_tr;
+		    if (!(fabs(gn - nfv[at[k]]) <= 1e-12 * nfv[at[k]]) ||
+			    !(fabs(gt - trv[at[k]]) <= 1e-12 * trv[at[k]])) {
+			snprintf(sig, sizeof(sig), "geq-through-points:%s",
+				tname);
+			vf_fail(r, sig, "noise declared on a %d-point grid "
+				"that contains calibration frequency %.6g Hz: "
+				"the library uses sigma_nf %.9g, sigma_tr %.9g "
+				"there, declared were %.9g and %.9g", n,
+				v->f[k], gn, gt, nfv[at[k]], trv[at[k]]);
+			break;
+		    }
+		}
+	    }
+	    if (vnp != NULL)
+		vnacal_new_free(vnp);
+	    if (vcp != NULL)
+		vnacal_free(vcp);
+	}
+	if (r->status != VF_OK)
+	    goto done;
+    }
     double effect = sdiff(&plain, &direct, nf, P);
     double dd = sdiff(&direct, &grid, nf, P);
     vf_note("weights move the result by %.3e, grids differ by %.3e", effect,
 	    dd);
     if (!(dd <= 1e-8 + 1e-4 * effect)) {
 	snprintf(sig, sizeof(sig), "geq-differs:%s:kind%d", tname, gk);
-	vf_fail(r, sig, "the same linear noise model declared on the "
+	vf_fail(r, sig, "the same noise model declared on the "
 		"calibration grid and on noise grid kind %d gives corrected "
 		"S-parameters differing by %.3e (the weights as a whole move "
 		"the result by %.3e)", gk, dd, effect);
@@ -843,6 +921,7 @@ static void run_geq(long idx, vf_result *r)
 	    "weights-matter" : "weights-idle");
 done:
     g_slope_nf = g_slope_tr = 0.0;
+    g_curve = 0;
     vf_exec_end(r, mark);
 }
 
